@@ -35,6 +35,8 @@ G['lfsr'] = {'files': ALLFILES, 'harnesses': [
       'output == i ^ lsb(shift_reg); shift_reg\' == (shift_reg >> 1) ^ (i ? mask : 0)', 'all mask, seed: u64, i in {0,1}'),
     H('il2p_lfsr_next_total', 'src/il2p_deframer.rs', 'il2p_deframer::Lfsr::next', 'C15.il2p-lfsr.next-total', ['C15'],
       'next() does not panic for any input byte', 'all mask, seed: u64, i: u8'),
+    H('il2p_bits_to_bytes_16', 'src/il2p_deframer.rs', 'il2p_deframer::bits_to_bytes', 'C15.il2p.bits-to-bytes', ['C15', 'C10'],
+      'no panic for arbitrary byte values; MSB-first packing when all are bits', 'all [u8; 16]', bounded='16 input bits = 2 output bytes (complete for that length; the loop body is the same for every byte)'),
 ]}
 G['hdlc'] = {'files': ALLFILES, 'harnesses': [
     H('bits2byte_all', 'src/hdlc_deframer.rs', 'hdlc_deframer::bits2byte', 'C13.bits2byte.lsb-first', ['C13'],
